@@ -38,6 +38,12 @@ Definition dump_eqb (a b : dump) : bool :=
 
 Definition is_dump_op (o : op) : bool := match o with OCommit | ORollback | ONewSession => true | _ => false end.
 
+(* At the dirty sites 3 and 9 (a failing Entity.set with collection arguments, a failing delete) the code runs its undo functions -
+   Entity.set in forward order - and an undo function may itself raise AssertionError (`assert obj2 is obj` on objects_to_save),
+   which then replaces the original exception: the model's error kind or AssertionError are both accepted there. *)
+Definition undo_may_assert (s1 : sess) (r1 r : res) : bool :=
+  (Nat.eqb (s_dirty s1) 3 || Nat.eqb (s_dirty s1) 9) && match r1, r with RErr _, RErr EAssertion => true | _, _ => false end.
+
 (* verdict code: 0 = all compared results and dumps agree; 100 + site = stopped at a dirty step (agreeing so far; site numbers in Model/Session.v); 2 = stopped where the
    model declines; 3 = result mismatch at the index; 4 = dump mismatch at the index.  Second component: op index. *)
 Fixpoint check_run (sch : schema) (s : sess) (ops : list op) (exp : list res) (dumps : list dump) (i : nat) : nat * nat :=
@@ -52,7 +58,7 @@ Fixpoint check_run (sch : schema) (s : sess) (ops : list op) (exp : list res) (d
   | o :: ops', r :: exp' =>
     let '(s1, r1) := step sch s o in
     if s_declined s1 then (2, i)%nat
-    else if negb (res_eqb r1 r) then (3, i)%nat
+    else if negb (res_eqb r1 r) && negb (undo_may_assert s1 r1 r) then (3, i)%nat
     else match s_dirty s1 with S _ => ((100 + s_dirty s1)%nat, i) | O =>
     if is_dump_op o then
       match dumps with
